@@ -176,8 +176,10 @@ def random_names(rng, kind):
     names = []
     if kind == "jsonl" and rng.random() < 0.3:
         names += ["other"] * rng.randint(1, 3)          # JSONLinesWriter: documents before any start
-    for _ in range(rng.randint(1, 4)):
-        names += ["start"] + ["other"] * rng.choice([0, 1, 2, 5, 12]) + ["stop"]
+    nruns = rng.randint(1, 4)
+    for i in range(nruns):
+        # (sometimes a run's stop never reaches the writer -- never for the last run)
+        names += ["start"] + ["other"] * rng.choice([0, 1, 2, 5, 12]) + (["stop"] if i == nruns - 1 or rng.random() < 0.8 else [])
     return names
 
 
